@@ -31,6 +31,14 @@ Definition run_pipe {T : Type} (n : N) (f : Z -> T -> T) (a : T) : option T :=
 
 Definition model (c : case) : option (list Z) :=
   match fam c with
+  | 6%N => match input c with
+           | [x] => match run_pipe (arity c) (fam6 1) (x, 0), run_pipe (arity c) (fam6 2) (x, 0) with
+                    | Some r1, Some r2 => Some (two_calls r1 r2) | _, _ => None end
+           | _ => None end
+  | 7%N => match signs7 (input c) with
+           | Some (s1, s2) => match run_pipe (arity c) fam7 s1, run_pipe (arity c) fam7 s2 with
+                              | Some r1, Some r2 => Some [r1; r2] | _, _ => None end
+           | None => None end
   | 5%N => match input c with [q] => option_map (fun y => [y]) (run_pipe (arity c) fam5 (q * 4194304)) | _ => None end
   | 2%N => run_pipe (arity c) fam2 (input c)
   | 3%N => run_pipe (arity c) fam2 (start3 (input c))
